@@ -56,8 +56,11 @@ def run(tier, seed):
     # the model's rounding envelope is an assumption: exceeding it is an error of the model, not of manif
     worstR = max([b for r in results for a, b in r["items"] if a == "model_R"] or [0])
     rep.extra["measured_rounding_units_max_milli_of_R6"] = worstR
-    if worstR > 1000: raise vlib.ModelError("NormDrift rounding envelope exceeded on a recorded step (ratio %.2f): the model must be revised" % (worstR / 1000.0))
     rep.judge(results, lambda e, i: i != "model_R")
+    # only when the implementation itself stays inside the band does a larger rounding step discredit the MODEL;
+    # if the recorded history violates the property, that is the finding (e.g. a tree without renormalisation)
+    if worstR > 1000 and not rep.violations:
+        raise vlib.ModelError("NormDrift rounding envelope exceeded on a recorded step (ratio %.2f): the model must be revised" % (worstR / 1000.0))
     for r in results:
         h = json.loads(r["ev"])
         if h["e"] == "wsum": total_steps += h["to"] - h["from"] + 1
